@@ -119,6 +119,12 @@ def do_replay(module, obname, call, real=False):
         from vf import HarnessError
         if isinstance(e, HarnessError):
             return {"reproduced": None, "detail": "HarnessError: %s" % e, "harness_error": True}
+        # an exception that escapes the harness counts against nauyaca only if nauyaca code is on the stack that raised
+        # it; one raised by the harness itself (e.g. a private attribute a refactoring renamed) is a machinery problem
+        frames = [f.filename for f in traceback.extract_tb(e.__traceback__)]
+        if not any("/nauyaca/" in f for f in frames):
+            return {"reproduced": None, "harness_error": True,
+                    "detail": "harness raised %s: %s (no nauyaca frame on the stack)" % (type(e).__name__, str(e)[:300])}
         return {"reproduced": True, "detail": "raised %s: %s" % (type(e).__name__, str(e)[:300])}
     return {"reproduced": (r is False), "detail": "returned %r" % (r,)}
 
